@@ -10,7 +10,7 @@ from ..px import OK, PX, RAISE, Outcomes
 from ..pxv import Obj, Sym
 from ..su import norm
 from ..te import ClassRef, Member, TypeRef
-from .app_rx import APP, NAMED, PARAMS_SENT, ROLES_SENT, VERSIONS, app_cls, explore_callback, rx_fields
+from .app_rx import APP, NAMED, PARAMS_SENT, ROLES_SENT, VERSIONS, app_cls, explore_callback, roles_of_call, rx_fields
 from .util import anchor_attrs
 from .util import const, fut, same_class, self_obj, text
 
@@ -339,9 +339,9 @@ def r12_3(ctx):
                 if len(hs) != 1 or p.terminal != "return":
                     bad = f"{len(hs)} calls of _handle_frame_sent, {p.terminal} {p.value!r}"
                 else:
-                    kw = dict(hs[0].kwargs)
+                    got_roles = roles_of_call(ctx, hs[0], "_handle_frame_sent", PARAMS_SENT)
                     for pn, role in PARAMS_SENT.items():
-                        got = kw.get(pn)
+                        got = got_roles.get(role)
                         if role == "STATUS":
                             if not (isinstance(got, Member) and got.cls.name == "sl_Status" and (got.value == 0) == (st_name == "ok")):
                                 bad = f"status reaches _handle_frame_sent as {got!r} for a {st_name} confirmation (must be the unified status)"
